@@ -379,7 +379,7 @@ static void op_frags(char **w, int nw)
 		enum websocket_callback_return r = binary_frame_received_comp(true, ws, f, sizes[i], false, cb_binf);
 		free(f);
 		if (r != WS_OK) { P(" ret=%s", retname(r)); break; }
-		if (sizes[i] == 0 && strm->avail_in == 0) { P(" skip"); continue; }
+		if (sizes[i] == 0) { P(" skip"); continue; }
 		uint32_t cap = le32(strm->next_in);
 		P(" %u:%zu:%u:%u", (unsigned)(cap - strm->avail_in - sizes[i]), sizes[i], cap, strm->avail_in);
 	}
